@@ -371,6 +371,15 @@ for _k in KINDS:
     _mk_packet_vc(_k)
 
 
+@vc("C08", "T5-own-address-never-entered")
+def own_address(ctx):
+    """Router.gn_data_indicate on a fully symbolic frame whose source address is the station's own: no handler reaches a location-table update"""
+    from .c04 import _trace_vc
+    for L in ((60,) if ctx.tier == "quick" else (40, 48, 60, 68)):
+        _trace_vc(ctx, L, own_table_only=True)
+    ctx.stub("as C04 R3: symbolic location table that records its calls, free geometry, recorded timers")
+
+
 @vc("C08", "T6-get-neighbours")
 def neighbours(ctx):
     I = make("int")
